@@ -6,6 +6,7 @@ import (
 	"fmt"
 	"sync"
 
+	cfg "github.com/lianxiangcloud/linkchain/config"
 	"github.com/lianxiangcloud/linkchain/libs/common"
 	"github.com/lianxiangcloud/linkchain/libs/log"
 	"github.com/lianxiangcloud/linkchain/libs/ser"
@@ -40,6 +41,13 @@ func init() {
 				return 3200
 			}
 			return 160
+		},
+		// one warm replica per cache-lane case keeps ~50 MB for the life of the process (see newNodeOpt)
+		Batch: func(tier string) int {
+			if tier == "thorough" {
+				return 20
+			}
+			return 0
 		},
 		Run: run,
 		Floors: func(tier string) map[string]int64 {
@@ -81,6 +89,15 @@ func getEnv() (*env, error) {
 // contract-upgrade signer set is present in the transaction manager's store the way a
 // committed MultiSignAccountTx leaves it (txmgr.saveMultiSignersInfo).
 func (e *env) newNode(withSigners bool) (*chainkit.Node, error) {
+	return e.newNodeOpt(withSigners, false)
+}
+
+// newNodeOpt: only a node whose pool cache is observed (the warm replica of the cache lane)
+// gets the real transaction cache. mempool.NewMempool allocates four 100000-entry heaps for it
+// and starts a goroutine per heap that never ends, i.e. ~50 MB per pool that the process
+// never gets back; the other nodes of this check never consult the cache (their pools are
+// empty when they verify blocks), so they run with the repository's no-op cache (CacheSize 0).
+func (e *env) newNodeOpt(withSigners, poolCache bool) (*chainkit.Node, error) {
 	dbs := e.g.CloneDBs()
 	if withSigners {
 		b, err := ser.EncodeToBytes(e.signers)
@@ -89,7 +106,12 @@ func (e *env) newNode(withSigners bool) (*chainkit.Node, error) {
 		}
 		dbs["txmgr"].Set([]byte(types.DBcontractCreateKey), b)
 	}
-	n, err := chainkit.OpenNode(e.g, dbs, chainkit.NodeOpts{})
+	mc := cfg.DefaultMempoolConfig()
+	mc.Broadcast = false
+	if !poolCache {
+		mc.CacheSize = 0
+	}
+	n, err := chainkit.OpenNode(e.g, dbs, chainkit.NodeOpts{MemCfg: mc})
 	if err != nil {
 		return nil, err
 	}
